@@ -6,6 +6,8 @@ Import ListNotations.
 
 Inductive c15case :=
 | CRaised
+| CSkip            (* a scale case (frames of 32 KiB .. several hundred KiB): too large to be evaluated here, judged by
+                      the model-free oracle alone *)
 | CLine (items framed chunks : list (list Z)) (out : list (list (list Z))) (completed : bool)
 | CLp (p : nat) (big : bool) (items framed chunks : list (list N)) (out : list (list (list N))) (completed : bool).
 
@@ -15,6 +17,7 @@ Definition nss_eqb := list_eqb ns_eqb.
 Definition c15_check (c : c15case) : bool :=
   match c with
   | CRaised => false                     (* the model never raises on these inputs *)
+  | CSkip => true
   | CLine items framed chunks out completed =>
       completed && zss_eqb (z_frame items) framed && list_eqb zss_eqb (z_unframe chunks) out
   | CLp p big items framed chunks out completed =>
